@@ -20,7 +20,8 @@ class ReplayDivergence(Exception):
 
 
 class Chooser(object):
-    def __init__(self, prefix=(), expect=None):
+    def __init__(self, prefix=(), expect=None, ctx=None):
+        self.ctx = dict(ctx or {})
         self.prefix = list(prefix)
         self.expect = expect          # labels recorded for the prefix points, or None
         self.choices = []
@@ -75,7 +76,7 @@ class Violation(Exception):
 
 class Result(object):
     """What one execution reports back."""
-    __slots__ = ('violations', 'aborted', 'outcome', 'clauses', 'states', 'info')
+    __slots__ = ('violations', 'aborted', 'outcome', 'clauses', 'states', 'info', 'final_state')
 
     def __init__(self):
         self.violations = []        # (clause, detail, where)
@@ -83,6 +84,7 @@ class Result(object):
         self.outcome = None         # hashable digest of the observable outcome
         self.clauses = {}           # clause -> [evaluations, nontrivial]
         self.states = []            # canonical quiescent-state digests met
+        self.final_state = None     # digest of the quiescent state this execution ended in (graph search)
         self.info = {}
 
     def ev(self, clause, nontrivial=True):
@@ -117,6 +119,7 @@ class Stats(object):
         self.max_depth = 0
         self.samples = []
         self.kinds = {}
+        self.finals = {}            # final_state digest -> (choices, labels) of the first execution reaching it
 
     def merge(self, o):
         self.executions += o.executions
@@ -137,6 +140,8 @@ class Stats(object):
         self.outcomes |= o.outcomes
         self.states |= o.states
         self.violations.extend(o.violations)
+        for k, v in o.finals.items():
+            self.finals.setdefault(k, v)
         if o.capped and not self.capped:
             self.capped = o.capped
         for s in o.samples:
@@ -149,7 +154,7 @@ def digest(obj):
 
 
 def explore(run, bound, prefix=(), expect=None, stats=None, deadline=None,
-            max_violations=5, scenario=None, branch_filter=None, min_point=None):
+            max_violations=5, scenario=None, branch_filter=None, min_point=None, ctx=None):
     """Enumerate every choice list extending `prefix` with total cost <= bound.
     run(chooser) -> Result.  Points before len(prefix) are never branched.
     branch_filter(label_kind) can restrict which points are branched (used to
@@ -161,9 +166,11 @@ def explore(run, bound, prefix=(), expect=None, stats=None, deadline=None,
             st.capped = 'time'
             break
         pre, exp, first = stack.pop()
-        ch = Chooser(pre, exp)
+        ch = Chooser(pre, exp, ctx)
         res = run(ch)
         st.executions += 1
+        if res.final_state is not None and res.final_state not in st.finals:
+            st.finals[res.final_state] = (list(ch.choices), [p[0] for p in ch.points])
         st.points += len(ch.points)
         st.transitions += res.info.get('transitions', 0)
         st.max_depth = max(st.max_depth, len(ch.points))
@@ -190,7 +197,7 @@ def explore(run, bound, prefix=(), expect=None, stats=None, deadline=None,
         for clause, detail, where in res.violations:
             if len(st.violations) < 200:
                 st.violations.append({
-                    'clause': clause, 'detail': detail, 'where': where, 'scenario': scenario,
+                    'clause': clause, 'detail': detail, 'where': where, 'scenario': scenario, 'ctx': ctx,
                     'choices': list(ch.choices), 'labels': [p[0] for p in ch.points],
                     'deviations': ch.chosen_labels()})
         if ch.cost >= bound:
